@@ -177,6 +177,13 @@ end
 def validateW (bo : ByteOrder) (buf : List UInt8) (off : Nat) (t : Ty) : W (Val × Nat) :=
   decW bo buf none maxDepth t off buf.length
 
+/-- instrumented `decBody` (`MarshalledMessageBody::validate`, the `get_param` loop): the types of the body
+    signature one after the other, then the "all bytes used" test -/
+def decBodyW (bo : ByteOrder) (buf : List UInt8) (nfds : Option Nat) (ts : List Ty) (off : Nat) : W (List Val) :=
+  match decFieldsW bo buf nfds maxDepth ts off buf.length with
+  | ⟨none, w, dp⟩ => ⟨none, w, dp⟩
+  | ⟨some (vs, o), w, dp⟩ => ⟨if o = buf.length then some vs else none, w, dp⟩
+
 /-- the linear bound of C04 on `work` for a decode of type `t` with budget `d` in a window of `n` bytes -/
 def workBound (t : Ty) (d n : Nat) : Nat := max t.size 256 * (1 + (d + 1) * n)
 
